@@ -340,6 +340,10 @@ class CallMixin(StmtMixin):
 
     def _apply_normal(self, st_n: State, c: Contract, binds: dict, env: Env, node: Any, line: int) -> Res:
         st_h = self.havoc_paths(st_n, c, binds)
+        for ip, k in c.advances.items():
+            iv = binds.get(ip)
+            if isinstance(iv, Ref) and st_h.obj(iv).kind == "iter":
+                st_h = st_h.heap_set(iv, "pos", st_h.obj(iv).get("pos") + k)
         for tp in c.touches:
             tv = binds.get(tp)
             if isinstance(tv, Ref) and st_h.obj(tv).kind == "msg":
